@@ -1,6 +1,7 @@
 package main
 
 import (
+	"strconv"
 	"bufio"
 	"context"
 	"encoding/hex"
@@ -125,6 +126,63 @@ func (w *impWorld) doImport(f []string) string {
 	return fmt.Sprintf("crash(%d)", code)
 }
 
+// importBulk: importbulk <n> <slot> <source> <target> — one interchange file with n keys (key i = i as 4 big-endian
+// bytes followed by 0x77…), each with one block and one attestation; then an export; result
+// "bulk <import result> n=<n> below=<keys whose exported values are below the imported ones> missing=<keys absent>".
+func (w *impWorld) importBulk(f []string) string {
+	n, _ := strconv.Atoi(f[1])
+	var sb strings.Builder
+	sb.WriteString(`{"metadata":{"interchange_format_version":"5","genesis_validators_root":"` + exportGVR + `"},"data":[`)
+	key := func(i int) string {
+		k := make([]byte, 48)
+		k[0], k[1], k[2], k[3] = byte(i>>24), byte(i>>16), byte(i>>8), byte(i)
+		for j := 4; j < 48; j++ {
+			k[j] = 0x77
+		}
+		return "0x" + hex.EncodeToString(k)
+	}
+	for i := 0; i < n; i++ {
+		if i > 0 {
+			sb.WriteByte(',')
+		}
+		fmt.Fprintf(&sb, `{"pubkey":"%s","signed_blocks":[{"slot":"%s"}],"signed_attestations":[{"source_epoch":"%s","target_epoch":"%s"}]}`, key(i), f[2], f[3], f[4])
+	}
+	sb.WriteString("]}")
+	w.n++
+	file := filepath.Join(w.dir, fmt.Sprintf("import-%d.json", w.n))
+	os.WriteFile(file, []byte(sb.String()), 0o600)
+	code, _, _ := w.runBin("--import-slashing-protection", "--slashing-protection-file", file, "--genesis-validators-root", exportGVR)
+	os.Remove(file)
+	res := map[int]string{0: "ok", 1: "err"}[code]
+	if res == "" {
+		res = fmt.Sprintf("crash(%d)", code)
+	}
+	ex := w.doExport()
+	have := map[string][3]int64{}
+	for _, tok := range strings.Fields(ex)[1:] {
+		p := strings.Split(tok, ":")
+		if len(p) == 4 {
+			a, _ := strconv.ParseInt(p[1], 10, 64)
+			b, _ := strconv.ParseInt(p[2], 10, 64)
+			c, _ := strconv.ParseInt(p[3], 10, 64)
+			have[p[0]] = [3]int64{a, b, c}
+		}
+	}
+	ws, _ := strconv.ParseInt(f[2], 10, 64)
+	wa, _ := strconv.ParseInt(f[3], 10, 64)
+	wt, _ := strconv.ParseInt(f[4], 10, 64)
+	below, missing := 0, 0
+	for i := 0; i < n; i++ {
+		v, ok := have[key(i)[2:]]
+		if !ok {
+			missing++
+		} else if v[0] < ws || v[1] < wa || v[2] < wt {
+			below++
+		}
+	}
+	return fmt.Sprintf("bulk %s n=%d below=%d missing=%d", res, n, below, missing)
+}
+
 func (w *impWorld) doExport() string {
 	code, so, _ := w.runBin("--export-slashing-protection", "--genesis-validators-root", exportGVR)
 	if code != 0 {
@@ -247,6 +305,8 @@ func impEngine(workdir, bin string) {
 			fmt.Fprintln(out, w.doImport(f))
 		case "export":
 			fmt.Fprintln(out, w.doExport())
+		case "importbulk":
+			fmt.Fprintln(out, w.importBulk(f))
 		case "probeatt", "probeprop":
 			if w.twin != nil {
 				fmt.Fprintln(out, w.probe(f)+" "+w.twin.probe(f))
